@@ -289,7 +289,7 @@ func RandValue(r *fw.Rand) string {
 		// change their behaviour (4 KiB and 64 KiB buffers), rarely 1 MiB
 		if r.Chance(1, 50) {
 			n := []int{4070, 4090, 4096, 4100, 8192, 16384, 65500, 65536, 65600, 100000}[r.Intn(10)]
-			if r.Chance(1, 40) {
+			if r.Chance(1, 150) {
 				n = 1 << 20
 			}
 			b := []byte(strings.Repeat("long value 1 NOTE x ", n/20+1))[:n]
